@@ -7,7 +7,7 @@ ENGINE = "gensim"
 LEVEL = "exploration"
 EXPECTED_S_PER_RUN = 2.5
 KINDS = ["nonstatio"]
-TIERS = {"quick": 300, "thorough": 16000}
+TIERS = {"quick": 300, "thorough": 6000}
 
 RULE = (
     "each run draws 1-2 CubicMeshPDENonStatio generators (dim 1 or 2, cartesian or paired, with or without border, "
